@@ -1092,6 +1092,14 @@ def get_item(interp, base, k, state, node):
                                          'key %r not in table' % (k,),
                                          cond=True)
                     raise _i()._NoReturn()
+            ck = interp.policy.choose_key(interp, base, o, k, state)
+            if ck is not None:
+                v = o.get(ck)
+                if v is ABSENT:
+                    raise AnalysisError('specialisation key %r not in table'
+                                        % (ck,))
+                state.kn.assume(T.compare('eq', _t(k), ck))
+                return v
             absent = Sym('notin', _t(k), base)
             interp.raise_pending(state, E('builtins.KeyError'), node,
                                  'key may be missing from the table',
